@@ -28,7 +28,8 @@ CONSTANTS Plans,        \* set of emission plans explored by the model
           CheckStream   \* design switch: stream state examined after close
 
 VARIABLES phase,      \* Start Args Parsed Validated CppValidated Named Emitting Done
-          plan,       \* sequence of [call, path, dir, len]; mkdir* then per file open write+ close
+          plan,       \* sequence of [call, path, dir, len, src]; mkdir* then per file open write+ close,
+                      \* optionally rename(src -> path) of a closed file into place / unlink of a closed file
           pc,         \* next plan index
           nio,        \* output-class I/O calls made so far (the shim's counter k)
           nin,        \* input-class calls made so far
@@ -54,7 +55,7 @@ vars == <<phase, plan, pc, nio, nin, inopens, fault, disk, disk0, diag, exit, fa
 Kinds    == {"ENOSPC", "EACCES", "EIO", "SHORT"}
 Errnos   == {"ENOSPC", "EACCES", "EIO"}
 NoFault  == [cls |-> "none", k |-> 0, kind |-> ""]
-Calls    == {"mkdir", "open", "write", "close"}
+Calls    == {"mkdir", "open", "write", "close", "rename", "unlink"}
 PrePhases == <<"Start", "Args", "Parsed", "Validated", "CppValidated", "Named">>
 
 \* ------------------------------------------------------------- plans -----
@@ -63,9 +64,21 @@ FilesOf(p)    == {p[i].path : i \in {j \in Idx(p) : p[j].call = "open"}}
 DirsOf(p)     == {p[i].path : i \in {j \in Idx(p) : p[j].call = "mkdir"}}
 IsLastWrite(p, i) == ~ \E j \in Idx(p) : j > i /\ p[j].call = "write" /\ p[j].path = p[i].path
 
+\* Two ways of producing a file are admitted: written in place, or written
+\* under another name and renamed into place ("atomic replace"); a written
+\* file may also be removed again.  What counts for the property are the
+\* files the plan leaves behind.
+RenamedAway(p) == {p[i].src : i \in {j \in Idx(p) : p[j].call = "rename"}}
+RenameDst(p)   == {p[i].path : i \in {j \in Idx(p) : p[j].call = "rename"}}
+Unlinked(p)    == {p[i].path : i \in {j \in Idx(p) : p[j].call = "unlink"}}
+AllPaths(p)    == FilesOf(p) \cup RenameDst(p)
+FinalFiles(p)  == (AllPaths(p) \ RenamedAway(p)) \ Unlinked(p)
+TmpFiles(p)    == AllPaths(p) \ FinalFiles(p)
+
 \* A plan is what a compiler run may look like: directories are created
 \* before they are used, every file is opened once, written (>= 1 write) and
-\* closed before the next one is opened.
+\* closed before the next one is opened; only a closed file is renamed or
+\* removed, at most once.
 PlanOK(p) ==
   /\ \A i \in Idx(p) : p[i].call \in Calls /\ p[i].len >= 0
   /\ FilesOf(p) \cap DirsOf(p) = {}
@@ -81,13 +94,25 @@ PlanOK(p) ==
         /\ i > 1 /\ p[i - 1].call \in {"open", "write"} /\ p[i - 1].path = p[i].path
   /\ \A i \in Idx(p) : p[i].call = "close" =>
         i > 1 /\ p[i - 1].call = "write" /\ p[i - 1].path = p[i].path
+  /\ \A i \in Idx(p) : p[i].call = "rename" =>
+        /\ p[i].src # p[i].path
+        /\ \E j \in 1 .. i - 1 : p[j].call = "close" /\ p[j].path = p[i].src
+        /\ ~ \E j \in 1 .. i - 1 : p[j].call \in {"rename", "unlink"} /\ p[i].src \in {p[j].src, p[j].path}
+        /\ p[i].path \notin DirsOf(p) /\ p[i].path \notin FilesOf(p)
+  \* (removing a name that is already gone - a temporary file after it was renamed - is a no-op)
+  /\ \A i \in Idx(p) : p[i].call = "unlink" =>
+        /\ \E j \in 1 .. i - 1 : p[j].call = "close" /\ p[j].path = p[i].path
+        /\ p[i].path \notin RenameDst(p)
+  /\ \A i, j \in Idx(p) : (i # j /\ p[i].call = "rename" /\ p[j].call = "rename") => p[i].path # p[j].path
 
+\* a populated / stale directory holds the files a complete run leaves behind
 DiskOf(p, kind) ==
-  [x \in DirsOf(p) \cup FilesOf(p) |->
+  [x \in DirsOf(p) \cup AllPaths(p) |->
      IF x \in DirsOf(p) THEN (IF kind = "fresh" THEN "absent" ELSE "dir")
-     ELSE IF kind = "fresh" THEN "absent" ELSE IF kind = "populated" THEN "complete" ELSE "stale"]
+     ELSE IF kind = "fresh" \/ x \in TmpFiles(p) THEN "absent"
+     ELSE IF kind = "populated" THEN "complete" ELSE "stale"]
 
-AllComplete == \A f \in FilesOf(plan) : disk[f] = "complete"
+AllComplete == \A f \in FinalFiles(plan) : disk[f] = "complete"
 
 \* ------------------------------------------------------- environment -----
 Running == exit = -1 /\ phase # "Done"
@@ -165,6 +190,25 @@ IoBody(call, path, len, o, n) ==
                  /\ soft' = (soft \/ o = "fail")
                  /\ pc' = j + 1
                  /\ UNCHANGED <<disk, pend, bad, failed>>
+            [] call = "rename" ->
+                 \* a closed file takes the place of whatever is there; a failed
+                 \* rename leaves both names as they were
+                 /\ o \in {"ok", "fail"}
+                 /\ cur = "" /\ pend = 0
+                 /\ disk' = IF o = "ok" THEN [disk EXCEPT ![path] = disk[plan[j].src], ![plan[j].src] = "absent"]
+                            ELSE disk
+                 /\ soft' = (soft \/ o = "fail")
+                 /\ pc' = j + 1
+                 /\ UNCHANGED <<pend, cur, bad, failed>>
+            [] call = "unlink" ->
+                 /\ o \in {"ok", "absent", "fail"}
+                 /\ cur = "" /\ pend = 0
+                 /\ (o = "ok") => disk[path] # "absent"
+                 /\ (o = "absent") => disk[path] = "absent"
+                 /\ disk' = IF o = "ok" THEN [disk EXCEPT ![path] = "absent"] ELSE disk
+                 /\ soft' = (soft \/ o = "fail")
+                 /\ pc' = j + 1
+                 /\ UNCHANGED <<pend, cur, bad, failed>>
 
 \* ... which the program may only make once the schema has been accepted and named
 Io(call, path, len, o, n) ==
@@ -238,6 +282,7 @@ DOut ==
               o   == IF HitOut /\ fault.kind \in Errnos THEN "fail"
                      ELSE IF HitOut /\ fault.kind = "SHORT" /\ op.call = "write" /\ len > 1 THEN "short"
                      ELSE IF op.call = "mkdir" /\ disk[op.path] = "dir" THEN "exists"
+                     ELSE IF op.call = "unlink" /\ disk[op.path] = "absent" THEN "absent"
                      ELSE "ok"
               n   == IF o = "short" THEN (len + 1) \div 2 ELSE IF o = "ok" THEN len ELSE 0
           IN /\ Io(op.call, op.path, len, o, n)
@@ -245,6 +290,10 @@ DOut ==
              /\ thrown' = CASE op.call \in {"mkdir", "open"} -> (o = "fail")
                             [] op.call = "write" -> FALSE      \* operator<< reports nothing
                             [] op.call = "close" -> (CheckStream /\ (bad \/ o = "fail"))
+                            \* moving a file into place can fail like any other step and is checked
+                            [] op.call = "rename" -> (o = "fail")
+                            \* failing to remove a file that was to be removed is tolerated
+                            [] op.call = "unlink" -> FALSE
   /\ UNCHANGED <<plan, nin, inopens, fault, disk0, diag, exit, gen, mayreject>>
 
 \* main returns: 1 with a diagnostic if an error reached it, else 0
@@ -283,7 +332,7 @@ TypeOK ==
   /\ pc \in 1 .. Len(plan) + 1
   /\ \A x \in DOMAIN disk : disk[x] \in States
   /\ \A d \in DirsOf(plan) : disk[d] \in {"absent", "dir"}
-  /\ \A f \in FilesOf(plan) : disk[f] # "dir"
+  /\ \A f \in AllPaths(plan) : disk[f] # "dir"
   /\ exit \in -1 .. 255 /\ gen \in {1, 2} /\ pend >= 0
   /\ (phase = "Done") = (exit # -1)
 
@@ -297,7 +346,9 @@ RejectKeepsDisk == (nio = 0) => disk = disk0
 \* a file is never left open, no transfer left half-done, when the run ends well
 CleanEnd == (exit = 0) => (cur = "" /\ pend = 0)
 \* compiling again into the populated directory: success, same tree
-RerunSame == (gen = 2 /\ phase = "Done") => (exit = 0 /\ disk = disk0)
+\* (the files the plan leaves behind; a scratch file whose removal failed the first time is not one of them)
+RerunSame == (gen = 2 /\ phase = "Done") =>
+               (exit = 0 /\ \A x \in DirsOf(plan) \cup FinalFiles(plan) : disk[x] = disk0[x])
 \* the fault position is honoured: at most one call fails
 OneFault == (fault = NoFault) => (~failed /\ ~soft)
 
